@@ -692,8 +692,7 @@ func (sc *ShardingController) calculateAndApplyAssignment(schedulerName string) 
 		return fmt.Errorf("failed to list nodes: %v", err)
 	}
 
-	schedulerConfig := sc.getSchedulerConfigByName(schedulerName)
-	if schedulerConfig == nil {
+	if sc.getSchedulerConfigByName(schedulerName) == nil {
 		return fmt.Errorf("scheduler config not found for %s", schedulerName)
 	}
 
@@ -707,9 +706,22 @@ func (sc *ShardingController) calculateAndApplyAssignment(schedulerName string) 
 	mgr := sc.shardingManager
 	sc.configMu.RUnlock()
 
-	assignment, err := mgr.calculateSingleSchedulerAssignment(*schedulerConfig, ctx)
-	if err != nil {
-		return fmt.Errorf("failed to calculate assignment: %v", err)
+	// Schedulers claim nodes in configuration order (see CalculateShardAssignments).
+	// Run the schedulers configured before this one first, on the same context, so
+	// that the nodes they take are in AssignedNodes and are not handed out again.
+	var assignment *ShardAssignment
+	for _, config := range mgr.schedulerConfigs {
+		a, err := mgr.calculateSingleSchedulerAssignment(config, ctx)
+		if err != nil {
+			return fmt.Errorf("failed to calculate assignment: %v", err)
+		}
+		if config.Name == schedulerName {
+			assignment = a
+			break
+		}
+	}
+	if assignment == nil {
+		return fmt.Errorf("scheduler config not found for %s", schedulerName)
 	}
 
 	return sc.applyAssignment(schedulerName, &ShardAssignment{
